@@ -515,10 +515,17 @@ func (e StdEng) MatMul(a, b, prealloc Tensor) (err error) {
 		ldc = prealloc.Shape()[1]
 	}
 
-	// check for trans
+	// check for trans. The buffer of a column-major operand, read as a row-major matrix,
+	// is the transpose of the operand; a pending lazy transpose transposes it once more.
 	tA, tB := blas.NoTrans, blas.NoTrans
-	if !ad.oldAP().IsZero() {
+	if ado.IsColMajor() {
 		tA = blas.Trans
+	}
+	if bdo.IsColMajor() {
+		tB = blas.Trans
+	}
+	if !ad.oldAP().IsZero() {
+		tA = flipTrans(tA)
 		if ado.IsRowMajor() {
 			lda = m
 		} else {
@@ -526,12 +533,16 @@ func (e StdEng) MatMul(a, b, prealloc Tensor) (err error) {
 		}
 	}
 	if !bd.oldAP().IsZero() {
-		tB = blas.Trans
+		tB = flipTrans(tB)
 		if bdo.IsRowMajor() {
 			ldb = bd.Shape()[0]
 		} else {
 			ldb = bd.Shape()[1]
 		}
+	}
+	// the buffer of a column-major result holds Cᵀ = Bᵀ × Aᵀ
+	if cdo.IsColMajor() {
+		tA, tB = flipTrans(tB), flipTrans(tA)
 	}
 
 	switch A := ad.Data().(type) {
@@ -539,7 +550,7 @@ func (e StdEng) MatMul(a, b, prealloc Tensor) (err error) {
 		B := bd.Float64s()
 		C := pd.Float64s()
 		alpha, beta := float64(1), float64(0)
-		if ado.IsColMajor() && bdo.IsColMajor() {
+		if cdo.IsColMajor() {
 			whichblas.Dgemm(tA, tB, n, m, k, alpha, B, ldb, A, lda, beta, C, ldc)
 		} else {
 			whichblas.Dgemm(tA, tB, m, n, k, alpha, A, lda, B, ldb, beta, C, ldc)
@@ -548,7 +559,7 @@ func (e StdEng) MatMul(a, b, prealloc Tensor) (err error) {
 		B := bd.Float32s()
 		C := pd.Float32s()
 		alpha, beta := float32(1), float32(0)
-		if ado.IsColMajor() && bdo.IsColMajor() {
+		if cdo.IsColMajor() {
 			whichblas.Sgemm(tA, tB, n, m, k, alpha, B, ldb, A, lda, beta, C, ldc)
 		} else {
 			whichblas.Sgemm(tA, tB, m, n, k, alpha, A, lda, B, ldb, beta, C, ldc)
@@ -557,7 +568,7 @@ func (e StdEng) MatMul(a, b, prealloc Tensor) (err error) {
 		B := bd.Complex64s()
 		C := pd.Complex64s()
 		var alpha, beta complex64 = complex(1, 0), complex(0, 0)
-		if ado.IsColMajor() && bdo.IsColMajor() {
+		if cdo.IsColMajor() {
 			whichblas.Cgemm(tA, tB, n, m, k, alpha, B, ldb, A, lda, beta, C, ldc)
 		} else {
 			whichblas.Cgemm(tA, tB, m, n, k, alpha, A, lda, B, ldb, beta, C, ldc)
@@ -566,7 +577,7 @@ func (e StdEng) MatMul(a, b, prealloc Tensor) (err error) {
 		B := bd.Complex128s()
 		C := pd.Complex128s()
 		var alpha, beta complex128 = complex(1, 0), complex(0, 0)
-		if ado.IsColMajor() && bdo.IsColMajor() {
+		if cdo.IsColMajor() {
 			whichblas.Zgemm(tA, tB, n, m, k, alpha, B, ldb, A, lda, beta, C, ldc)
 		} else {
 			whichblas.Zgemm(tA, tB, m, n, k, alpha, A, lda, B, ldb, beta, C, ldc)
@@ -575,6 +586,13 @@ func (e StdEng) MatMul(a, b, prealloc Tensor) (err error) {
 		return errors.Errorf(typeNYI, "matMul", ad.Data())
 	}
 	return
+}
+
+func flipTrans(t blas.Transpose) blas.Transpose {
+	if t == blas.NoTrans {
+		return blas.Trans
+	}
+	return blas.NoTrans
 }
 
 // Outer is a thin wrapper over S/Dger
